@@ -433,6 +433,16 @@ pub fn gen_reply(r: &mut Rng) -> Vec<u8> {
     }
     // failure reason
     match mode {
+        3 if r.coin() => {
+            // a long reason in a language that needs multi-byte characters (or with bytes that are not UTF-8 at all), the
+            // characters straddling every round byte offset
+            let unit: &[u8] = *r.pick(&["ż".as_bytes(), "€".as_bytes(), "𝄞".as_bytes(), b"\xff", b"a\xc3"]);
+            let mut text: Vec<u8> = vec![b'x'; r.below(4) as usize];
+            while text.len() < 100 + r.below(400) as usize {
+                text.extend_from_slice(unit);
+            }
+            top.push((b"failure reason".to_vec(), 0, T::s(&text)))
+        }
         3 => top.push((b"failure reason".to_vec(), 0, T::s(b"torrent not registered"))),
         4 => top.push((b"failure reason".to_vec(), 0, T::s(*r.pick(&bad_utf8)))),
         5 => top.push((b"failure reason".to_vec(), 0, T::i(5))),
